@@ -430,9 +430,19 @@ func init() {
 			for _, s := range []string{"\xe2\x84\xaa", "\xc4\xb0", "\xc4\xb1", "\xc5\xbf", "\xe2\x84\xab", "\xe2\x84", "\xc4", "a\xe2\x84\xaab", "\xc4\xb0\xc4\xb0", "\xef\xbf\xbd", "\xe2\x84\xaa\xff", "\xc4\xb1A", "\xe1\xba\x9e", "\xc3\x89"} {
 				out = append(out, Case{s}, Case{"X" + s}, Case{s + "Y"})
 			}
+			// every non-ASCII rune whose lower-case image is ASCII (the model knows U+0130 and
+			// U+212A; a Unicode version that adds another one shows up here as a disagreement)
+			for r := rune(0x80); r <= unicode.MaxRune; r++ {
+				if r >= 0xD800 && r <= 0xDFFF {
+					continue
+				}
+				if unicode.ToLower(r) < 0x80 {
+					out = append(out, Case{string(r)}, Case{"A" + string(r) + "z"})
+				}
+			}
 			return out
 		},
-		Exhaustive: "all single bytes, alone and between ASCII letters",
+		Exhaustive: "all single bytes, alone and between ASCII letters; every rune of Unicode whose lower-case image is ASCII",
 		Gen: func(r *rand.Rand) Case {
 			var sb strings.Builder
 			for i, n := 0, r.Intn(8); i < n; i++ {
